@@ -359,11 +359,14 @@ class FakeExecutor(concurrent.futures.Executor):
         self.submitted += 1
         f = concurrent.futures.Future()
         f.set_running_or_notify_cancel()
-        label = self.labeler(self.kind, fn) if self.labeler else (self.kind, None, repr(fn), self.submitted)
+        pre = self.labeler(self.kind, fn, None) if self.labeler else None
         try:
             res = (True, fn(*a, **kw))
         except BaseException as e:  # noqa: BLE001
             res = (False, e)
+        # the label names the node whose body ran inside fn (taken from the trace, not from the shape of fn: the
+        # engine is free to wrap the node's method)
+        label = self.labeler(self.kind, fn, pre) if self.labeler else (self.kind, None, repr(fn), self.submitted)
 
         def fire():
             if res[0]:
